@@ -115,6 +115,9 @@ type Raw struct {
 	HealthStatus atomic.Int64
 	// HealthDelayMs delays the answer on /verif-health (a slow prober; default 0).
 	HealthDelayMs atomic.Int64
+	// DropBodies: do not keep what was written per exchange (sub-checks that never read the
+	// transcripts and move gigabytes would otherwise hold all of it until the next Reset).
+	DropBodies atomic.Bool
 	// ModelsBody is answered on /verif-models.
 	ModelsBody atomic.Value // string
 	// OnExchange, if set, is called when an exchange starts (after the request is read).
@@ -424,9 +427,11 @@ func (b *Raw) handle(c net.Conn) {
 				ok = write(p)
 			}
 			if ok {
-				ex.mu.Lock()
-				ex.WroteBody = append(ex.WroteBody, p...)
-				ex.mu.Unlock()
+				if !b.DropBodies.Load() {
+					ex.mu.Lock()
+					ex.WroteBody = append(ex.WroteBody, p...)
+					ex.mu.Unlock()
+				}
 			} else {
 				finish(false)
 				return
